@@ -14,7 +14,10 @@ use subprocess::ExitStatus;
 use super::scenario::*;
 
 pub const PAGE: usize = 4096;
-const DEFAULT_MAX_EVENTS: u64 = 200_000;
+/// processed events + hook entries per run (a payload written byte by byte needs millions)
+const DEFAULT_MAX_EVENTS: u64 = 4_000_000;
+/// entries in the recorded history per run: what bounds the memory of a scrut that spins
+const MAX_LOGGED: u64 = 250_000;
 
 pub const EPIPE: i32 = 32;
 pub const EINTR: i32 = 4;
@@ -182,6 +185,7 @@ pub struct World {
     pub stall_total_ns: u64,
     pub ovh: u64,
     max_events: u64,
+    logged: u64,
     pub drained: bool,
     pub fs_calls: BTreeMap<String, u32>,
 }
@@ -218,6 +222,7 @@ impl World {
             stall_total_ns: 0,
             ovh: 0,
             max_events,
+            logged: 0,
             drained: false,
             fs_calls: BTreeMap::new(),
         }
@@ -239,6 +244,11 @@ impl World {
     }
 
     pub fn log(&mut self, ev: LogEv) {
+        self.logged += 1;
+        if self.logged == MAX_LOGGED {
+            // (the abort writes one more entry; `==` keeps it from coming back here)
+            self.abort(SimAbort::EventCap);
+        }
         self.seq += 1;
         let entry = LogEntry {
             seq: self.seq,
